@@ -951,6 +951,11 @@ package gts
 //@   ensures head: forall k in 0..offset: bytesOf(out)[k] == old(bytesOf(seq)[k])
 //@   ensures tail: forall k in offset..len(bytesOf(out)): bytesOf(out)[k] == old(bytesOf(seq)[k+length])
 //@   ensures count: len(featsOf(out)) <= len(featsOf(seq)) && fresh(featsOf(out))
+//@   callpre Delete(s, o, n): o == offset && n == length && len(featsOf(s)) <= len(featsOf(seq)) && (len(featsOf(s)) > 0 ==> 0 <= Filter_J(0) && Filter_J(0) < len(featsOf(seq)))
+//@   ghost EJ(k int) int
+//@   ghost_final EJ(k) := Filter_J(k)
+//@   ensures wiring: forall k in 0..len(featsOf(out)): 0 <= EJ(k) && EJ(k) < len(featsOf(seq)) && featsOf(out)[k].Key == old(featsOf(seq)[EJ(k)].Key) &&
+//@      valOf(featsOf(out)[k].Loc) == expId(valOf(old(featsOf(seq)[EJ(k)].Loc)), offset, 0 - length)
 //@   assigns nothing
 
 //@ func Slice(seq Sequence, start, end int) (out Sequence)
